@@ -13,9 +13,9 @@ from vlib import *
 MANIFEST = {
  "text": "Lean 4 theorems over an executable model of src/inet.c, uv_ip4_addr/uv_ip6_addr/uv_ip*_name and src/strscpy.c: "
          "inet_pton4 accepts exactly the dotted-quad grammar and returns its value; ntop4/pton4 round trip for all 2^32 addresses; "
-         "inet_pton6 accepts only RFC 4291 text (grammar Ipv6Text) with the grammar's value, and never a string longer than 45 chars; "
-         "ntop lengths (<=15 / <=45), charset, exact ENOSPC boundary and no write past size; uv_ip6_addr(a%z) == uv_inet_pton(a) for "
-         "every a; uv__strscpy never writes past n, NUL-terminates, returns UV_E2BIG iff truncated.  The model is tied to the working "
+         "inet_pton6 accepts exactly RFC 4291 text (grammar Ipv6Text, soundness and completeness) with the grammar's value, never a "
+         "string longer than 45 chars; pton6(ntop6(a)) = a for all 2^128 addresses; ntop lengths (<=15 / <=45), charset, exact ENOSPC "
+         "boundary and no write past size; uv_ip6_addr(a%z) == uv_inet_pton(a) for every a; uv__strscpy never writes past n, NUL-terminates, returns UV_E2BIG iff truncated.  The model is tied to the working "
          "tree by running model, implementation and glibc on the same strings/addresses/sizes (exhaustive short strings over the full "
          "byte alphabet, grammar-generated and mutated forms, all 256 zero-word patterns, every destination size 0..len+2) with all "
          "buffers against guard pages.",
@@ -364,6 +364,9 @@ def report(ctx, run, fails):
             continue
         seen.add(sig)
         small = shrink(run, ln, sig)
+        if small != ln:                      # describe the shrunk input, not the one first found
+            again = [w for (l, sg, w) in run.check([small], monitors_only=True) if sg == sig]
+            what = again[0] if again else what
         ctx.violation(sig, what + f"  [input line: {small}]", {"lines": [small], "found_as": ln})
 
 
